@@ -217,8 +217,9 @@ func variantsSane() (int, error) {
 // ---- recording transporter ----
 
 type recTransport struct {
-	mu   sync.Mutex
-	msgs [][3]int // kind (1 NewProxy, 2 CloseProxy), name, val
+	mu    sync.Mutex
+	msgs  [][3]int    // kind (1 NewProxy, 2 CloseProxy), name, val
+	newAt []time.Time // arrival times of NewProxy messages (never reset)
 }
 
 func nameNum(s string) int {
@@ -236,6 +237,7 @@ func (t *recTransport) Send(m msg.Message) error {
 	case *msg.NewProxy:
 		// which configuration object the wrapper holds is observed through the status rows
 		t.msgs = append(t.msgs, [3]int{1, nameNum(x.ProxyName), 0})
+		t.newAt = append(t.newAt, time.Now())
 	case *msg.CloseProxy:
 		t.msgs = append(t.msgs, [3]int{2, nameNum(x.ProxyName), 0})
 	default:
@@ -302,10 +304,10 @@ type rstep struct {
 }
 
 type robs struct {
-	msgs    [][3]int
-	result  int
-	status  [][5]int // name id phase haserr val
-	undead  []string // wrappers that left the table but do not report phase closed
+	msgs   [][3]int
+	result int
+	status [][5]int // name id phase haserr val
+	undead []string // wrappers that left the table but do not report phase closed
 }
 
 const (
@@ -474,6 +476,84 @@ func (r *rrun) step(s rstep) robs {
 func (r *rrun) finish() {
 	r.pm.Close()
 	r.cancel()
+}
+
+// ---- wall-clock check of the two timeouts (runtime residue, not part of the Coq cases) ----
+
+func (t *recTransport) newCount() (int, time.Time) {
+	t.mu.Lock()
+	defer t.mu.Unlock()
+	if len(t.newAt) == 0 {
+		return 0, time.Time{}
+	}
+	return len(t.newAt), t.newAt[len(t.newAt)-1]
+}
+
+func waitNewCount(t *recTransport, n int, d time.Duration) (time.Time, bool) {
+	deadline := time.Now().Add(d)
+	for time.Now().Before(deadline) {
+		if c, at := t.newCount(); c >= n {
+			return at, true
+		}
+		time.Sleep(500 * time.Microsecond)
+	}
+	return time.Time{}, false
+}
+
+// measureBackoff runs one wrapper with real (small) timing constants and returns how long after a
+// start error (resp. after an unanswered NewProxy) the next NewProxy was sent.
+func measureBackoff(interval, waitTO, errTO time.Duration) (afterErr, afterSilence time.Duration, ok bool) {
+	proxy.VerifSetTiming(interval, waitTO, errTO)
+	defer proxy.VerifSetTiming(longTime, longTime, longTime)
+	r := newRun()
+	defer r.finish()
+	c := buildCfg(pspec{name: 0, typ: 0})
+	r.pm.UpdateAll([]v1.ProxyConfigurer{c})
+	if _, ok := waitNewCount(r.tr, 1, 2*time.Second); !ok {
+		return 0, 0, false
+	}
+	t0 := time.Now()
+	_ = r.pm.StartProxy("p0", "", respErrText)
+	at2, ok2 := waitNewCount(r.tr, 2, errTO*3+2*time.Second)
+	if !ok2 {
+		return 0, 0, false
+	}
+	afterErr = at2.Sub(t0)
+	// no reply to the second NewProxy: re-sent after waitResponseTimeout
+	at3, ok3 := waitNewCount(r.tr, 3, waitTO*3+2*time.Second)
+	if !ok3 {
+		return afterErr, 0, false
+	}
+	return afterErr, at3.Sub(at2), true
+}
+
+type backoffResult struct {
+	Interval, WaitTO, ErrTO, AfterErr, AfterSilence int64 // ms
+	OK                                              bool
+}
+
+// checkBackoff: the retry must come no earlier than the timeout and no later than timeout + one
+// check interval + tolerance.  A measurement outside the window is repeated with larger constants
+// (up to three times); it is reported only if every repetition is outside.
+func checkBackoff() (res []backoffResult, failure string) {
+	profiles := [][3]time.Duration{
+		{8 * time.Millisecond, 120 * time.Millisecond, 200 * time.Millisecond},
+		{15 * time.Millisecond, 300 * time.Millisecond, 500 * time.Millisecond},
+		{30 * time.Millisecond, 700 * time.Millisecond, 1200 * time.Millisecond},
+	}
+	for _, p := range profiles {
+		ae, as, ok := measureBackoff(p[0], p[1], p[2])
+		tolE := p[2]/5 + 2*p[0]
+		tolW := p[1]/5 + 2*p[0]
+		good := ok && ae >= p[2] && ae <= p[2]+p[0]+tolE && as >= p[1] && as <= p[1]+p[0]+tolW
+		res = append(res, backoffResult{p[0].Milliseconds(), p[1].Milliseconds(), p[2].Milliseconds(), ae.Milliseconds(), as.Milliseconds(), good})
+		if good {
+			return res, ""
+		}
+		failure = fmt.Sprintf("start error retried after %d ms (startErrTimeout %d ms), unanswered NewProxy re-sent after %d ms (waitResponseTimeout %d ms), check interval %d ms, completed=%v",
+			ae.Milliseconds(), p[2].Milliseconds(), as.Milliseconds(), p[1].Milliseconds(), p[0].Milliseconds(), ok)
+	}
+	return res, failure
 }
 
 // ---- generation ----
@@ -877,6 +957,13 @@ func runReconcile(cfg *hx.RunCfg) error {
 	if err := cf.Write(cfg.Out); err != nil {
 		return err
 	}
+	bo, bofail := checkBackoff()
+	if bofail != "" {
+		failures = append(failures, map[string]any{"key": "reconcile:backoff-interval-wall-clock",
+			"what": "real proxy.Wrapper, wall clock, three measurements all outside [timeout, timeout + interval + tolerance]: " + bofail,
+			"case": fmt.Sprintf("%+v", bo)})
+	}
+	cfg.St["backoff_wall_clock_ms"] = bo
 	cfg.St["cases"] = len(cf.Cases)
 	cfg.St["distinct_nontrivial"] = distinct
 	cfg.St["samples"] = samples
